@@ -251,6 +251,7 @@ func runSWInBubble(t *testing.T, sc *SWScenario) []sim.Ev {
 	defer sweepSetHook(nil)
 	dstore := dssync.MutexWrap(ds.NewMapDatastore())
 	ksDS := dssync.MutexWrap(ds.NewMapDatastore())
+	bufDS := dssync.MutexWrap(ds.NewMapDatastore()) // the buffered wrapper's queue survives a restart, like the other stores
 	var ks keystore.Keystore
 	var prov swProvider
 	var inner *provider.SweepingProvider
@@ -275,7 +276,7 @@ func runSWInBubble(t *testing.T, sc *SWScenario) []sim.Ev {
 		}
 		prov = inner
 		if sc.Buffered {
-			prov = buffered.New(inner, dssync.MutexWrap(ds.NewMapDatastore()))
+			prov = buffered.New(inner, bufDS)
 		}
 		return nil
 	}
@@ -533,7 +534,7 @@ func genSWGrowth(r *rand.Rand) *SWScenario {
 // peer of the swarm is unreachable for ADD_PROVIDER); keys are handed over and reprovides fall due in that
 // window; then the swarm is replaced by a reachable one. Everything owed has to be delivered afterwards.
 func genSWOutage(r *rand.Rand) *SWScenario {
-	sc := &SWScenario{Seed: r.Int63(), R: 2 + r.Intn(3), NPeers: 16 + r.Intn(40), NKeys: 6 + r.Intn(20), Interval: []int{60, 120}[r.Intn(2)], Workers: 2 + r.Intn(4)}
+	sc := &SWScenario{Seed: r.Int63(), R: 2 + r.Intn(3), NPeers: 16 + r.Intn(40), NKeys: 6 + r.Intn(20), Interval: []int{60, 120}[r.Intn(2)], Workers: 2 + r.Intn(4), Buffered: r.Intn(4) == 0}
 	sc.K = sc.R
 	sc.MaxDelay = sc.Interval / 4
 	half := sc.NPeers / 2
@@ -583,7 +584,7 @@ func genSWOutage(r *rand.Rand) *SWScenario {
 // delivered - and the provider is restarted with the same datastores; connectivity / delivery is back at the
 // restart or shortly afterwards. What was waiting has to be advertised.
 func genSWRestart(r *rand.Rand) *SWScenario {
-	sc := &SWScenario{Seed: r.Int63(), R: 2 + r.Intn(3), NPeers: 16 + r.Intn(40), NKeys: 6 + r.Intn(14), Interval: []int{60, 120}[r.Intn(2)], Workers: 2 + r.Intn(4)}
+	sc := &SWScenario{Seed: r.Int63(), R: 2 + r.Intn(3), NPeers: 16 + r.Intn(40), NKeys: 6 + r.Intn(14), Interval: []int{60, 120}[r.Intn(2)], Workers: 2 + r.Intn(4), Buffered: r.Intn(4) == 0}
 	sc.K = sc.R
 	sc.MaxDelay = sc.Interval / 4
 	half := sc.NPeers / 2
